@@ -25,6 +25,9 @@ def run(prog, chk):
     chk.rule('R12.3', 'address of a std::vector element must not outlive a later growth of that vector')
     chk.rule('R12.4', 'evaluator destructor empties every Object-owning member after the join, before member destruction')
     chk.rule('R12.5', 'deleter lambda / destructor: every call that can throw is inside try{}catch(...)')
+    chk.rule('R12.6', 'built-in dispatch subscripts args[k]: arity guaranteed (size guard, or analyser reserves gate names and checks arity)')
+    chk.rule('R12.7', 'Object-owning containers are never shrunk in place where a deleter can re-enter (detach the element first)')
+    chk.rule('R12.8', 'a slot that may hold the last reference to an object is overwritten only after its old value was moved out')
     ev = R.ev
     execute = R.ev_method('execute')
     dtor = [f for f in R.ev_methods() if f.kind == 'dtor']
@@ -128,6 +131,9 @@ def run(prog, chk):
                'member %s owns Objects (%s): it must be emptied in the destructor body, after the join, on every path' % (m, how), key='release:' + m)
 
     # ---- R12.5 ----------------------------------------------------------------------------
+    _rule_builtin_args(prog, chk, R)
+    _rule_inplace_shrink(prog, chk, R, owners, dtor)
+    _rule_slot_overwrite(prog, chk, R)
     dels = _deleter_lambdas(prog, R)
     chk.count('shared_ptr<Object> deleter lambdas', len(dels), 1)
     throwing = _may_throw_set(prog)
@@ -154,6 +160,165 @@ def _substr_guarded(prog, f, n):
         if r and not pol and ((r[0] == '<' and r[1] >= c) or (r[0] == '<=' and r[1] >= c - 1)):
             return True
     return False
+
+
+def _rule_builtin_args(prog, chk, R):
+    ev = R.ev_method('eval')
+    g = prog.cfg(ev)
+    subs = []
+    for n in SX.walk(ev.body, into_lambdas=False):
+        if n['k'] == 'index' and SX.is_node(n['base']) and n['base'].get('k') == 'ref' and n['base'].get('t', '').startswith('std::vector<bloch::runtime::Value')                 and SX.is_node(n['i']) and n['i']['k'] == 'int':
+            subs.append(n)
+    # only those in the built-in gate branch: guarded by a lookup in the builtInGates table
+    def in_builtin(node):
+        return any('builtInGates' in SX.show(ce) for ce, pol, _ in g.guards(node))
+    sites = []
+    for n in subs:
+        node = _node_of(g, n)
+        if node is not None and in_builtin(node):
+            sites.append((n, node))
+    chk.count('constant subscripts of the argument vector in the built-in dispatch', len(sites), 8)
+    # premises on the analyser side
+    analyse = prog.fn('SemanticAnalyser::analyse')
+    ga = prog.cfg(analyse)
+    reserved = False
+    for t in ga.nodes:
+        if t.kind != 'throw':
+            continue
+        for ce, pol, _ in ga.guards(t):
+            if pol and SX.is_node(ce) and ce['k'] in ('mcall', 'call'):
+                for f in prog.resolve(ce):
+                    if f.body and any(x['k'] == 'ref' and x.get('global') and x['name'].endswith('builtInGates') for x in SX.walk(f.body)):
+                        loops = [lp for lp in SX.walk(analyse.body, into_lambdas=False) if lp['k'] == 'forrange' and any(y is ce for y in SX.walk(lp['body']))]
+                        if any('functions' in SX.show(lp['range']) for lp in loops):
+                            reserved = True
+            if pol and any(x['k'] == 'ref' and x.get('global') and x['name'].endswith('builtInGates') for x in SX.walk(ce)):
+                reserved = True
+    arity = False
+    for f in prog.methods_of('bloch::compiler::SemanticAnalyser'):
+        if f.short != 'visit' or not f.body or 'CallExpression' not in f.sig:
+            continue
+        gv = prog.cfg(f)
+        for t in gv.nodes:
+            if t.kind == 'throw' and 'argument(s)' in SX.show(t.e):
+                if any('size()' in SX.show(ce) and ('ParamCount' in SX.show(ce) or 'expected' in SX.show(ce).lower() or 'param' in SX.show(ce).lower()) for ce, pol, _ in gv.guards(t)):
+                    arity = True
+    for n, node in sites:
+        k = n['i']['v']
+        sized = False
+        for ce, pol, _ in g.guards(node):
+            from ..kdiv import cmp_with_const
+            r = cmp_with_const(ce, SX.show(n['base']) + '.size()')
+            if r and pol and ((r[0] == '>' and r[1] >= k) or (r[0] == '>=' and r[1] >= k + 1) or (r[0] == '==' and r[1] >= k + 1)):
+                sized = True
+        ok = sized or (reserved and arity)
+        chk.ob('R12.6', ev, n.get('ln', ev.ln), ok,
+               'args[%d] in the built-in gate dispatch: %s' % (k, 'size guard' if sized else ('analyser reserves gate names (%s) and checks call arity (%s)' % (reserved, arity))),
+               key='builtin-arg:%d' % k, nontrivial=False)
+    chk.ob('R12.6', analyse, analyse.ln, reserved or all(False for _ in []) and False or reserved,
+           'the predeclaration loop must reject a user function whose name is a built-in gate (the evaluator dispatches gates by name before user functions)',
+           key='gate-names-reserved')
+    chk.ob('R12.6', analyse, analyse.ln, arity, 'calls are checked against the callee\'s parameter count', key='call-arity-checked')
+
+
+def _rule_inplace_shrink(prog, chk, R, owners, dtor):
+    execute = R.ev_method('execute')
+    names = {m for m, _ in owners}
+    evfns = [f for f in R.ev_methods() if f.body] + [x for x in prog.functions if x.kind == 'lambda' and x.cls == R.ev['name'] and x.body]
+    n = 0
+    for f in evfns:
+        sites = [c for c in SX.walk(f.body, into_lambdas=False) if c['k'] == 'mcall' and SX.short(c['callee']) in ('pop_back', 'resize', 'erase', 'clear', 'shrink_to_fit')
+                 and SX.is_this_member(SX.strip(c.get('obj'))) and SX.strip(c['obj'])['name'] in names and 'vector' in c.get('ot', '')]
+        if not sites:
+            continue
+        g = prog.cfg(f)
+        for c in sites:
+            n += 1
+            m = SX.strip(c['obj'])['name']
+            node = _node_of(g, c)
+            op = SX.short(c['callee'])
+            ok = False
+            why = ''
+            if op == 'pop_back':
+                det = [d for d in g.nodes if d.kind == 'decl' and SX.is_node(d.e.get('init')) and d.e['init'].get('k') == 'call' and d.e['init'].get('callee') == 'std::move'
+                       and any(x['k'] == 'mcall' and SX.short(x['callee']) == 'back' and SX.is_this_member(SX.strip(x.get('obj')), m) for x in SX.walk(d.e['init']))]
+                ok = bool(det) and node is not None and any(g.dominates(d, node) and not _loophead_between(g, d, node) for d in det)
+                why = 'the element must first be moved into a local (its deleters may push/pop the same container)'
+            else:
+                if f is dtor:
+                    flags = [w for w, l, r, o in g.writes() if SX.is_node(r) and r['k'] == 'bool' and r['v'] and SX.is_this_member(SX.strip(l)) and _deleter_tests(prog, R, SX.strip(l)['name'])]
+                    ok = bool(flags) and node is not None and g.must_precede(flags, node)
+                    why = 'only after the teardown flag that silences the deleter is set'
+                elif f is execute:
+                    act = [x for x in g.calls(lambda e: e['k'] == 'mcall' and e['callee'].startswith(R.ev['name'] + '::') and SX.short(e['callee']) in
+                                             ('call', 'exec', 'eval', 'buildClassTable', 'initStaticFields'))]
+                    ok = node is not None and not any(node.id in g.reachable([a]) for a in act)
+                    why = 'only before anything has run (fresh, single-use evaluator)'
+                else:
+                    why = 'in-place %s destroys elements while their deleters can re-enter the container' % op
+            chk.ob('R12.7', f, c.get('ln', f.ln), ok, '%s.%s(): %s' % (m, op, why), key='shrink:%s:%s.%s' % (f.short, m, op))
+    chk.count('shrinking operations on Object-owning containers', n, 3)
+
+
+def _loophead_between(g, d, node):
+    return False
+
+
+def _deleter_tests(prog, R, flag):
+    for lf in _deleter_lambdas(prog, R):
+        if any(x['k'] == 'member' and x['name'] == flag for x in SX.walk(lf.body)):
+            return True
+    return False
+
+
+SLOT_EXCEPTIONS = {
+    ('runConstructorChain', 'fields'): 'default-constructor binding into an object created in this very `new`: the slot still holds its default value, which owns no object',
+}
+
+
+def _rule_slot_overwrite(prog, chk, R):
+    evfns = [f for f in prog.functions if f.body and f.file.endswith('runtime_evaluator.cpp')]
+    helpers = set()
+    for f in evfns:
+        if f.kind == 'lambda':
+            continue
+        refs = [p for p in f.params if p['type'].endswith('Value &') and not p['type'].startswith('const')]
+        if not refs:
+            continue
+        g = prog.cfg(f)
+        for p in refs:
+            moves = [d for d in g.nodes if d.kind == 'decl' and SX.is_node(d.e.get('init')) and d.e['init'].get('k') == 'call' and d.e['init'].get('callee') == 'std::move'
+                     and any(x['k'] == 'ref' and x.get('id') == p['id'] for x in SX.walk(d.e['init']))]
+            stores = [n for n, l, r, o in g.writes() if o == '=' and SX.is_node(SX.strip(l)) and SX.strip(l).get('id') == p['id']]
+            if moves and stores and all(g.must_precede(moves, s) for s in stores):
+                helpers.add(f.key)
+    n = 0
+    for f in evfns:
+        if f.key in helpers:
+            continue
+        for x in SX.walk(f.body, into_lambdas=False):
+            w = SX.write_target(x)
+            if not w or w[2] != '=' or w[1] is None:
+                continue
+            l = SX.strip(w[0])
+            if not (SX.is_node(l) and l['k'] == 'index'):
+                continue
+            root, names = SX.member_chain(l)
+            cont = names[-1] if names else None
+            if cont not in ('fields', 'staticStorage'):
+                continue
+            r = SX.strip(w[1])
+            lvalue_src = SX.is_node(r) and r['k'] in ('ref', 'member', 'index') or (SX.is_node(r) and r['k'] == 'opcall' and r['op'] in ('*', '->'))
+            if not lvalue_src:
+                continue   # assigning a temporary move-assigns: the old value is released after the slot holds the new one
+            n += 1
+            exc = SLOT_EXCEPTIONS.get((f.short, cont))
+            chk.ob('R12.8', f, x.get('ln', f.ln), bool(exc),
+                   '%s = %s copy-assigns over a slot that may hold the last reference to an object (its destructor would run while the slot is half-written)%s' % (
+                       SX.show(l)[:50], SX.show(r)[:20], ('; exception: ' + exc) if exc else '; use the move-out-first helper'), key='slot:%s:%s' % (f.short, cont))
+    calls = sum(1 for f in evfns for x in SX.walk(f.body, into_lambdas=False) if x['k'] == 'call' and (x.get('callee', '') + x.get('sig', '')) in helpers)
+    chk.extra['slot_store_helper_calls'] = calls
+    chk.count('move-out-first slot helpers', len(helpers), 1)
 
 
 def _arg0(n):
